@@ -153,10 +153,12 @@ func stripIndexes(s string) string {
 // knownReverse lists the disagreements found by TestCrossKafkaGoReverse; each
 // is triaged in DISAGREEMENTS.md.
 var knownReverse = map[string]string{
-	// DISAGREEMENTS.md #2 (an empty topic name is written as a null string)
-	"Metadata request: topics.name: null marker for non-nullable string": "v0-v8",
+	// (DISAGREEMENTS.md #2 and #10, an empty array element written as a null
+	// string, were repaired in kafka-go)
 	// DISAGREEMENTS.md #4 (tagged field not modelled, silently dropped)
 	"CreateTopics response: value changed by kafka-go round trip: topics.topic_config_error_code": "v5",
+	// DISAGREEMENTS.md #9 (kafka-go expects the tag buffer of a struct Kafka does not have)
+	"DescribeAcls request: kafka-go cannot read: cannot decode unsigned varint from input stream": "v2-v3",
 }
 
 func TestCrossKafkaGoReverse(t *testing.T) {
